@@ -19,8 +19,18 @@ from .isoc import PKG
 
 from cardutil.cli import print_exception_details
 
+DECCFG_BIT = '5'          # a copy of the packaged configuration where element 5 is a decimal
+
+
+def dec_config():
+    import copy
+    bc = copy.deepcopy(PKG['bit_config'])
+    bc[DECCFG_BIT]['field_python_type'] = 'decimal'
+    return bc
+
+
 FAULTS = ('truncated-record', 'oversized-length', 'undecodable-mti', 'unknown-bit', 'bad-field-length', 'bad-typed-value',
-          'bad-pds', 'bad-icc', 'short-message', 'short-message-empty-bitmap', 'bare-mti')
+          'bad-pds', 'bad-icc', 'short-message', 'short-message-empty-bitmap', 'bare-mti', 'bad-decimal')
 
 
 def owner(clause):
@@ -57,6 +67,9 @@ def inject(rec, kind, enc, r):
         x = x[:q + 3 + 0] + x[q + 3:]
         x[q - 3:q] = '002'.encode(enc)     # ICC field of 2 bytes: a tag without a length byte
         x = x[:q + 2] + x[q + 10:]
+    elif kind == 'bad-decimal':
+        q = 20 + 18 + 6 + 12               # element 5 follows DE2 (2 + 16), DE3 (6), DE4 (12)
+        x[q + 3:q + 10] = 'garbage'.encode(enc)
     elif kind == 'short-message':
         x = x[:11]
     elif kind == 'short-message-empty-bitmap':
@@ -70,6 +83,10 @@ def inject(rec, kind, enc, r):
 def build_file(n, k, kind, enc, blocked, bc, seed):
     r = drv.rng(seed, 'c10', n, k, kind, enc, blocked)
     msgs = [base_message(i + 1, enc) for i in range(n)]
+    if kind == 'bad-decimal':
+        import decimal
+        for i, m in enumerate(msgs):
+            m['DE5'] = decimal.Decimal(1000 + i) / 100
     recs = [isoc.iso8583.dumps(dict(m), encoding=enc, iso_config=bc) for m in msgs]
     if kind in ('truncated-record', 'oversized-length'):
         stream = b''
@@ -94,11 +111,18 @@ def build_file(n, k, kind, enc, blocked, bc, seed):
 
 def _drive(args):
     seed, cases = args
-    bc = PKG['bit_config']
     out = []
     for (tid, n, k, kind, enc, blocked) in cases:
+        bc = dec_config() if kind == 'bad-decimal' else PKG['bit_config']
         data = build_file(n, k, kind, enc, blocked, bc, seed)
-        events = [ipmc.iev(1, 'given', b=data)] + ipmc.read_all_events(1, data, enc, bc, blocked, style=tid % 4)
+        realfile = None
+        if tid % 5 == 3:
+            import os
+            realfile = os.path.join(core.VERIF, '.work', 'c10-%d-%d.ipm' % (os.getpid(), tid))
+            open(realfile, 'wb').write(data)
+        events = [ipmc.iev(1, 'given', b=data)] + ipmc.read_all_events(1, data, enc, bc, blocked, style=tid % 4, path=realfile)
+        if realfile:
+            os.unlink(realfile)
         last = events[-1]
         detail = None
         if last.get('_exc') is not None and last['out'] == 'liberr':
@@ -115,7 +139,7 @@ def _drive(args):
                     '_desc': '%d records, fault %s in record %d, %s, %s, reader consumed by %s' % (
                         n, kind, k, enc, 'blocked' if blocked else 'vbs',
                         ('next() calls', 'next() then a for loop', 'a for loop left with break and resumed', 'one for loop')[tid % 4]),
-                    '_detail': detail, '_enc': enc})
+                    '_detail': detail, '_enc': enc, '_cfg': 'dec' if kind == 'bad-decimal' else 'pkg'})
     return out
 
 
@@ -142,10 +166,10 @@ def run(rep, wd, tier, seed):
     groups = {}
     for o in outs:
         for t in o:
-            g = groups.setdefault(t['_enc'], [])
+            g = groups.setdefault((t['_cfg'], t['_enc']), [])
             t['tid'] = len(g)
             g.append(t)
-    glist = [(('pkg',), enc, ts) for enc, ts in groups.items()]
+    glist = [(dec_config() if k[0] == 'dec' else ('pkg',), k[1], ts) for k, ts in groups.items()]
     rep.extra['fault_matrix'] = {'files': len(cases), 'fault_kinds': list(FAULTS), 'n': '1..4 exhaustive' + (', 5..40 sampled' if tier == 'thorough' else '')}
     kinds = {}
     for g in glist:
